@@ -213,7 +213,7 @@ Section Oracles.
     cbn [spec]. unfold decode_o, decode in E. destruct doc; try discriminate.
     - inversion E; subst. cbn. apply fields_from_zero.
     - destruct (mapM _ (schema_of ty)) as [r | |] eqn:Em; try discriminate. cbn in E. inversion E; subst.
-      rewrite obj_eqb_refl. cbn. apply fields_from_dec, Em.
+      rewrite obj_eqb_refl. cbn [andb]. rewrite (fields_from_dec _ _ _ Em). apply orb_true_r.
   Qed.
 End Oracles.
 
@@ -251,17 +251,19 @@ Proof.
   congruence.
 Qed.
 
-Lemma actor_pairs_keys act iss sub k : In k (keys (actor_pairs act iss sub)) -> In k actor_names.
+Lemma fold_variant_refl names k : In k names -> fold_variant names k = true.
 Proof.
-  unfold actor_pairs, str_pair, actor_names.
-  destruct act; destruct (String.eqb iss ""); destruct (String.eqb sub ""); cbn; intuition.
+  intros H. unfold fold_variant. apply existsb_exists. exists k. split; [exact H | apply seqb_refl].
 Qed.
 
-Lemma actor_pairs_other k act iss sub :
-  string_in k actor_names = false -> lookup k (actor_pairs act iss sub) = None.
+Lemma lookup_merge_other names reg cl k :
+  NoDup (keys reg) -> (forall x, In x (keys reg) -> In x names) ->
+  fold_variant names k = false -> lookup k (merge reg cl) = lookup k cl.
 Proof.
-  intros H. apply lookup_not_in. intro Hin. apply (string_in_false _ _ H).
-  eapply actor_pairs_keys; eauto.
+  intros Hnd Hsub Hk. rewrite lookup_merge by exact Hnd.
+  assert (Hv : fold_variant (keys reg) k = false) by (eapply fold_variant_subset; eauto).
+  rewrite Hv. rewrite lookup_not_in; [reflexivity |].
+  intro Hin. rewrite (fold_variant_refl (keys reg) k Hin) in Hv. discriminate.
 Qed.
 
 Lemma keep_or_read_sim s oj s' : keep_or_read s oj = Ok s' -> String.eqb s "" || String.eqb s s' = true.
@@ -285,9 +287,9 @@ Proof.
   - eapply keep_or_read_sim; eauto.
   - eapply keep_or_read_sim; eauto.
   - apply forallb_forall. intros [k j] Hin. cbn [fst snd].
-    destruct (string_in k actor_names) eqn:Ek; [reflexivity |]. cbn [orb].
-    rewrite lookup_overlay by apply actor_pairs_nodup.
-    rewrite actor_pairs_other by exact Ek. apply opt_json_eqb_refl.
+    destruct (fold_variant actor_names k) eqn:Ek; [reflexivity |]. cbn [orb].
+    rewrite (lookup_merge_other actor_names);
+      [apply opt_json_eqb_refl | apply actor_pairs_nodup | intros x; apply actor_pairs_keys | exact Ek].
   - destruct act as [p |]; [| reflexivity].
     destruct (norm_actor p) as [q | |] eqn:Ep; try discriminate. cbn in Ea. inversion Ea; subst.
     apply IH. exact Ep.
@@ -471,8 +473,9 @@ Section Round.
   Theorem spec_model_round ty vals claims :
     spec (IRound ty vals claims o) (model (IRound ty vals claims o)) = true.
   Proof.
-    cbn [model spec]. unfold spec_round, rt_guard.
-    destruct (vals_wf (lt_of o) (schema_of ty) vals) eqn:Hwf; [| reflexivity].
+    cbn [model spec]. unfold spec_round.
+    destruct (rt_guard o (schema_of ty) vals claims) eqn:Hg; [| reflexivity].
+    unfold rt_guard in Hg. apply andb_true_iff in Hg as [Hg _]. apply andb_true_iff in Hg as [Hwf _].
     set (sch := schema_of ty) in *. unfold encode_T. fold sch.
     assert (Hpre : exists pv, pre ty vals = pv /\ vals_wf lt sch pv = true /\
               (forall vals' d, fields_rt ty sch pv vals' d = true -> fields_rt ty sch vals vals' d = true) /\
@@ -488,14 +491,14 @@ Section Round.
         + apply set_val_actor_collision. }
     destruct Hpre as [pv [Epv [Hwfp [Hrt [Hcol Hacol]]]]]. rewrite Epv.
     unfold decode_o. fold rfc lt lp.
-    rewrite (roundtrip rfc lt lp sch pv claims (schema_nodup ty) Hwfp). unfold norm.
+    rewrite (roundtrip rfc lt lp sch pv claims (schema_nodup ty) (schema_fold_distinct ty) Hwfp). unfold norm.
     destruct (mapM (norm_field rfc lt lp claims) (combine sch pv)) as [vs' | |] eqn:Em; cbn [bind res_opt].
     - rewrite obj_eqb_refl. cbn [andb]. apply andb_true_iff. split.
       + apply Hrt. eapply fields_rt_norm; [| now apply (vals_wf_length lt) | exact Em].
-        intros f v Hin. apply lookup_encode_reg; [apply schema_nodup | exact Hin].
+        intros f v Hin. apply lookup_encode_reg; [apply schema_nodup | apply schema_fold_distinct | exact Hin].
       + apply forallb_forall. intros [k j] Hin. cbn [fst snd].
-        destruct (string_in k (map fname sch)) eqn:Ek; [reflexivity |]. cbn [orb].
-        rewrite lookup_encode_custom; [apply opt_json_eqb_refl | apply schema_nodup | now apply string_in_false].
+        destruct (fold_variant (map fname sch) k) eqn:Ek; [reflexivity |]. cbn [orb].
+        rewrite lookup_encode_custom; [apply opt_json_eqb_refl | apply schema_nodup | exact Ek].
     - destruct (unset_collision sch vals claims) eqn:Eu; [reflexivity |].
       destruct (any_actor_collision vals) eqn:Ea; [reflexivity |].
       destruct (norm_fields_ok claims sch pv (Hcol eq_refl) (Hacol eq_refl)) as [vs Hvs]. congruence.
@@ -506,11 +509,24 @@ Section Round.
 End Round.
 
 (* ---------- statements as they appear in props/C12.v ---------- *)
+Lemma case_variants_dropped ty vals claims k :
+  fold_variant (keys (reg_pairs (schema_of ty) (pre ty vals))) k = true ->
+  ~ In k (keys (reg_pairs (schema_of ty) (pre ty vals))) ->
+  lookup k (encode_T ty vals claims) = None.
+Proof.
+  intros Hv Hn. unfold encode_T, encode.
+  rewrite lookup_merge by (apply reg_pairs_nodup, schema_nodup).
+  rewrite (lookup_not_in _ _ Hn), Hv. reflexivity.
+Qed.
+
 Lemma roundtrip_T rfc lt lp ty vals claims :
+  decode_domain (schema_of ty) (encode_T ty vals claims) = true ->
   vals_wf lt (schema_of ty) (pre ty vals) = true ->
   decode rfc lt lp (schema_of ty) (JObj (encode_T ty vals claims))
   = norm rfc lt lp (schema_of ty) (pre ty vals) claims.
-Proof. intros H. unfold encode_T. apply roundtrip; [apply schema_nodup | exact H]. Qed.
+Proof.
+  intros _ H. unfold encode_T. apply roundtrip; [apply schema_nodup | apply schema_fold_distinct | exact H].
+Qed.
 
 Lemma registered_wins_T ty vals claims f v j :
   In (f, v) (combine (schema_of ty) (pre ty vals)) -> marshal_field f v = Some j ->
@@ -591,6 +607,8 @@ Definition ex_at_claims : obj :=
   [("iss", JStr "https://evil.example"); ("nonce", JStr "from-custom"); ("role", JArr [JStr "r1"])].
 
 Example roundtrip_nonvacuous :
+  decode_domain (schema_of TAT) (encode_T TAT ex_at_vals ex_at_claims) = true /\
+  lookup (bs [105;197;191;115]%N) (encode_T TAT ex_at_vals ((bs [105;197;191;115]%N, JStr "evil") :: ex_at_claims)) = None /\
   vals_wf (lt_of ex_oracles) (schema_of TAT) (pre TAT ex_at_vals) = true /\
   lookup "iss" (encode_T TAT ex_at_vals ex_at_claims) = Some (JStr "https://issuer.example.com") /\
   lookup "role" (encode_T TAT ex_at_vals ex_at_claims) = Some (JArr [JStr "r1"]) /\
@@ -599,6 +617,7 @@ Example roundtrip_nonvacuous :
              nth 0 vs (VStr "") = VStr "https://issuer.example.com" /\
              nth 7 vs (VStr "") = VStr "from-custom".
 Proof.
+  split; [vm_compute; reflexivity |]. split; [vm_compute; reflexivity |].
   split; [vm_compute; reflexivity |]. split; [vm_compute; reflexivity |].
   split; [vm_compute; reflexivity |]. eexists. split; [vm_compute; reflexivity |].
   split; vm_compute; reflexivity.
